@@ -132,6 +132,10 @@ def generate(rng):
                 gp["sigma_fn"] = "const:0.2"
             gp.pop("cost", None)
             ns = rng.choice([1, 2, 3, 5, 21])
+            if not half and rng.chance(0.05) and fn not in ("generate_rough_bergomi",):
+                # a long horizon (decades of monthly steps): factors that over- and underflow separately must not meet as inf * 0
+                ns = rng.choice([150, 300])
+                gp["dt"] = rng.choice([1 / 12, 0.1])
             ops.append({"op": "generate", "fn": fn, "kind": gk, "params": gp, "n_paths": rng.choice([1, 2, 5, 40]), "n_steps": ns,
                         "init_state": (gen_init(rng, gk, gp) if rng.chance(0.5) and not half else None),
                         "init_form": rng.choice(["tuple", "tuple", "scalar"]),
